@@ -13,8 +13,10 @@ import (
 	"github.com/sirupsen/logrus"
 	appsv1 "k8s.io/api/apps/v1"
 	corev1 "k8s.io/api/core/v1"
+	k8serrors "k8s.io/apimachinery/pkg/api/errors"
 	metav1 "k8s.io/apimachinery/pkg/apis/meta/v1"
 	"k8s.io/apimachinery/pkg/runtime"
+	"k8s.io/apimachinery/pkg/runtime/schema"
 	"k8s.io/client-go/kubernetes/fake"
 	k8stesting "k8s.io/client-go/testing"
 
@@ -29,6 +31,7 @@ type K8sScaleCase struct {
 	Tpls    int    `json:"templates"`
 	Expect  int32  `json:"expect"`
 	ExtraLo int    `json:"extraClaimsBelow"`
+	UpdErr  int    `json:"updateError"` // 0: accepted, 1: the API server answers 409 Conflict, 2: another error
 }
 type K8sPod struct {
 	Ord int `json:"ord"` // -1: a pod with an unrelated name
@@ -92,8 +95,16 @@ func runK8sScale(c *K8sScaleCase) (line string, obs map[string]interface{}) {
 	if err != nil || len(mgrs) != 1 {
 		return "", map[string]interface{}{"error": fmt.Sprint("replicas: ", err, len(mgrs))}
 	}
+	if c.UpdErr != 0 {
+		cli.PrependReactor("update", "statefulsets", func(k8stesting.Action) (bool, runtime.Object, error) {
+			if c.UpdErr == 1 {
+				return true, nil, k8serrors.NewConflict(schema.GroupResource{Group: "apps", Resource: "statefulsets"}, stsName, fmt.Errorf("the object has been modified"))
+			}
+			return true, nil, fmt.Errorf("etcdserver: request timed out")
+		})
+	}
 	cli.ClearActions()
-	_ = mgrs[0].ChangeScale(c.Expect)
+	scaleErr := mgrs[0].ChangeScale(c.Expect)
 	updated := false
 	type del struct{ t, i int64 }
 	var dels []del
@@ -135,13 +146,15 @@ func runK8sScale(c *K8sScaleCase) (line string, obs map[string]interface{}) {
 		w.add(int64(*got.Spec.Replicas))
 	}
 	w.bool(updated)
+	w.bool(c.UpdErr == 0)
+	w.bool(scaleErr != nil)
 	w.add(int64(len(dels)))
 	dl := []string{}
 	for _, d := range dels {
 		w.add(d.t, d.i)
 		dl = append(dl, fmt.Sprintf("data%d-%s-%d", d.t, stsName, d.i))
 	}
-	obs = map[string]interface{}{"updated": updated, "deleted": dl}
+	obs = map[string]interface{}{"updated": updated, "deleted": dl, "errorReturned": scaleErr != nil}
 	if !repNil {
 		obs["replicas"] = *got.Spec.Replicas
 	}
@@ -248,7 +261,7 @@ func runK8sRoll(c *K8sRollCase) (string, map[string]interface{}) {
 
 func runK8s(a Args) *Result {
 	res := newResult("k8s", a.seed, a.tier)
-	res.Rule = "scale: every (current, requested) in [0,6]^2 x templates 0..3 x deletePVC x nil-replicas (exhaustive); shards: random pod lists (permutations of ordinals, missing IPs, malformed lists with gaps/foreign names); rolling: all (replicas, updated) in [0,3]^2; non-trivial = the scale changes, or the pod list is a non-identity permutation"
+	res.Rule = "scale: every (current, requested) in [0,6]^2 x templates 0..3 x deletePVC x nil-replicas (exhaustive), plus a rejected Update (409 Conflict / other error) for every changing pair in [0,5]^2 x templates 0..2; shards: random pod lists (permutations of ordinals, missing IPs, malformed lists with gaps/foreign names); rolling: all (replicas, updated) in [0,3]^2; non-trivial = the scale changes, or the pod list is a non-identity permutation"
 	rng := NewRng(a.seed)
 	type item struct {
 		c   interface{}
@@ -275,6 +288,13 @@ func runK8s(a Args) *Result {
 					c := &K8sScaleCase{Kind: "scale", Del: del, Cur: cur, Tpls: t, Expect: exp}
 					l, o := runK8sScale(c)
 					add(c, l, o)
+					if cur != exp && t <= 2 && cur <= 5 && exp <= 5 { // the API server rejects the update
+						for ue := 1; ue <= 2; ue++ {
+							c := &K8sScaleCase{Kind: "scale", Del: del, Cur: cur, Tpls: t, Expect: exp, UpdErr: ue}
+							l, o := runK8sScale(c)
+							add(c, l, o)
+						}
+					}
 				}
 			}
 		}
